@@ -57,8 +57,17 @@ Definition g_jf_F4 (fx5 : bool) (H : string -> string) (kc : option string) (s :
 
 (** C11-F8: the RFC 7234 cache ignores `Vary`: a stored response is reused for a
     request whose Vary-selected headers differ from those of the request it was fetched for *)
-Definition g_F8 (fx8 : bool) (c : hc_cfg) (h : list alist) : bool :=
-  hc_stores fx8 c && exists_pair (fun a b => negb (String.eqb (hc_body c a) (hc_body c b))) h.
+Definition g_F8 (fx8 : bool) (c : hc_cfg) (h : list hc_req) : bool :=
+  hc_stores fx8 c &&
+  exists_pair (fun a b => negb (String.eqb (hc_vary_part c a) (hc_vary_part c b))) h.
+
+(** C11-F9: the RFC 7234 cache answers POST requests from the cache, whatever their body *)
+Definition g_F9 (fx8 : bool) (c : hc_cfg) (h : list hc_req) : bool :=
+  hc_stores fx8 c && hc_is_post c &&
+  exists_pair (fun a b => negb (String.eqb (hq_body a) (hq_body b))) h.
+
+Definition hc_req_eqb (a b : hc_req) : bool :=
+  alist_eqb (hq_headers a) (hq_headers b) && String.eqb (hq_body a) (hq_body b).
 
 (** C11-F4 for the jwt authenticator's key cache: endpoint hash | rendered url | key id *)
 Definition p_jk_F4 (H : string -> string) (a b : jk_cfg * jtok) : bool :=
